@@ -21,6 +21,7 @@ from qsmon import core
 from qsmon.core import F, Violation, close, is_cents
 
 ASSETS = ['EQ:AAA', 'EQ:BBB', 'EQ:CCC', 'EQ:DDD', 'EQ:EEE']
+ODD_ASSETS = ['EQ:spy', 'EQ:Brk.b', 'EQ:AAA', 'EQ:aaa', 'EQ:CCC']      # symbols are case-sensitive strings
 MON_OPEN = '2019-03-04 14:30:00'   # a Monday
 
 
@@ -607,6 +608,18 @@ class Scenario(object):
                         self.viol('C01', 'cash-changed-by-refused-request/%s' % op[0],
                                   'request %r was refused with %s but a cash balance changed: %s'
                                   % (op, outcome, [d for d in diff_snap(cb, ca) if 'cash' in d][:4]))
+                if 'C04' in self.active and op[0] not in ('update', 'exec'):
+                    pb = {p: v['pend'] for p, v in before['ports'].items()}
+                    pa = {p: v['pend'] for p, v in after['ports'].items() if p in pb}
+                    if pb != pa:
+                        self.viol('C04', 'pending-order-dropped-by-refused-request/%s' % op[0], 'request %r was refused with %s and the '
+                                  'pending orders went from %s to %s' % (op, outcome, pb, pa))
+                if 'C02' in self.active:
+                    hb = {p: v['hold'] for p, v in self.canon(before)['ports'].items()}
+                    ha = {p: v['hold'] for p, v in self.canon(after)['ports'].items() if p in hb}
+                    if hb != ha and op[0] not in ('update', 'exec', 'pf_mark', 'pf_txn'):
+                        self.viol('C02', 'holdings-changed-by-refused-request/%s' % op[0], 'request %r was refused with %s and the '
+                                  'holdings report changed: %s' % (op, outcome, diff_snap(self.canon(before), self.canon(after))[:3]))
                 raise Stop()   # partial update; only C15 judges the rest
             return
 
@@ -1514,7 +1527,8 @@ class PortfolioScenario(Scenario):
 # generators
 # ---------------------------------------------------------------------------
 
-STARTS = ['2019-03-04 09:00:00', '2019-03-04 14:30:00', '2019-03-02 12:00:00',
+STARTS = ['1965-03-08 09:00:00', '1969-12-26 14:30:00',                      # before the Unix epoch as well
+          '2019-03-04 09:00:00', '2019-03-04 14:30:00', '2019-03-02 12:00:00',
           '2020-02-28 20:59:59.999999', '2019-12-31 21:00:00', '2021-06-16 16:00:00',
           '2024-02-29 14:29:59.999999']
 BOUNDARIES = [(14, 29, 59, 999999), (14, 30, 0, 0), (20, 59, 59, 999999), (21, 0, 0, 0),
@@ -1592,7 +1606,7 @@ def next_time(rng, t):
 def make_cfg(rng):
     used = set()
     n_assets = rng.randint(1, 5)
-    assets = ASSETS[:n_assets]
+    assets = (ODD_ASSETS if rng.random() < 0.2 else ASSETS)[:n_assets]
     fee_kind = rng.random()
     if fee_kind < 0.3:
         fee = ['zero']
